@@ -13,6 +13,10 @@ use std::sync::Mutex;
 use std::time::Instant;
 
 pub const VERIF_DIR: &str = "/verif";
+/// where evidence and replay files go (the default; ORCA_MC_OUT redirects them for scratch development runs)
+pub fn out_dir() -> String {
+    std::env::var("ORCA_MC_OUT").unwrap_or_else(|_| VERIF_DIR.to_string())
+}
 
 #[derive(Clone, Copy, PartialEq, Eq, Debug)]
 pub enum Tier {
@@ -451,7 +455,7 @@ impl Run {
                 }
                 None => {
                     violations += 1;
-                    let dir = format!("{}/replays/{}", VERIF_DIR, self.id);
+                    let dir = format!("{}/replays/{}", out_dir(), self.id);
                     let _ = std::fs::create_dir_all(&dir);
                     let fname: String = sig
                         .chars()
@@ -518,7 +522,7 @@ impl Run {
             "wall_s": (wall * 1000.0).round() / 1000.0,
             "violations": violations,
         });
-        let evdir = format!("{}/evidence", VERIF_DIR);
+        let evdir = format!("{}/evidence", out_dir());
         let _ = std::fs::create_dir_all(&evdir);
         let evpath = format!("{}/{}.json", evdir, self.id);
         if let Err(e) = std::fs::write(&evpath, serde_json::to_string_pretty(&ev).unwrap()) {
